@@ -24,6 +24,9 @@ def arg_decl(n, shape):
     if shape == "tuple-qint2":
         assert n % 2 == 0
         return "Tuple[" + ", ".join(["Qint[2]"] * (n // 2)) + "]"
+    if shape == "nested":
+        assert n == 4
+        return "Tuple[Tuple[bool, Qint[2]], bool]"
     raise ValueError(shape)
 
 
@@ -37,6 +40,8 @@ def shapes_for(n):
         out += ["tuple", "qlist"]
     if n % 2 == 0 and n >= 4:
         out.append("tuple-qint2")
+    if n == 4:
+        out.append("nested")
     return out
 
 
@@ -45,6 +50,8 @@ def bit_expr(i, shape):
         return "a"
     if shape == "tuple-qint2":
         return f"a[{i // 2}][{i % 2}]"
+    if shape == "nested":
+        return ["a[0][0]", "a[0][1][0]", "a[0][1][1]", "a[1]"][i]
     return f"a[{i}]"
 
 
@@ -138,6 +145,8 @@ def value_of_index(x, n, shape):
         return tuple(bool((x >> i) & 1) for i in range(n))
     if shape == "tuple-qint2":
         return tuple((x >> (2 * j)) & 3 for j in range(n // 2))
+    if shape == "nested":
+        return ((bool(x & 1), (x >> 1) & 3), bool((x >> 3) & 1))
     raise ValueError(shape)
 
 
@@ -150,4 +159,10 @@ def same_decoded(got, exp, shape):
         return isinstance(got, tuple) and len(got) == len(exp) and all(isinstance(g, bool) and g == e for g, e in zip(got, exp))
     if shape == "tuple-qint2":
         return isinstance(got, tuple) and len(got) == len(exp) and all(isinstance(g, int) and not isinstance(g, bool) and int(g) == e for g, e in zip(got, exp))
+    if shape == "nested":
+        try:
+            (b0, q), b3 = got
+        except (TypeError, ValueError):
+            return False
+        return isinstance(b0, bool) and isinstance(b3, bool) and isinstance(q, int) and not isinstance(q, bool) and ((b0, int(q)), b3) == exp
     return False
